@@ -175,6 +175,22 @@ def cases(tier, seed):
                                                     "n": n, "neig": neig, "mode": mode, "spectrum": spec,
                                                     "param": param, "dtype": d, "order": order, "batch": "-",
                                                     "plane": 0, "basis": basis})
+    # ---- the operator objects are given other tensors between the forward call and the backward pass
+    for n in ((3, 6) if not thorough else (2, 3, 5, 6)):
+        for spec in ("sep", "deg2"):
+            lam = spectrum(spec, n)
+            for mode in ("lowest", "uppest"):
+                for neig in boundary_neigs(lam, mode, 0.0):
+                    for (m, b, d) in grid:
+                        if m == "exacteig" or b not in ("exactsolve", "cg", "default"):
+                            continue
+                        if not _combo_ok(thorough, m, b, "mfree", n):
+                            continue
+                        for M in (0, 1):
+                            for order in (1, 2):
+                                out.append({"fam": "symeig", "method": m, "bck": b, "M": M, "opkind": "mfree",
+                                            "n": n, "neig": neig, "mode": mode, "spectrum": spec, "param": "P1",
+                                            "dtype": d, "order": order, "batch": "-", "plane": 0, "mut": 1})
     # ---- an operator whose first declared parameter does not require grad while a later one does
     for n in ((3, 6) if not thorough else (2, 3, 5, 6)):
         for spec in ("sep", "deg2"):
@@ -506,10 +522,13 @@ def run_symeig(cfg):
         return losses_from_pairs(E, X, 0)
 
     # ---- library forward
+    held = {}
+
     def fwd():
         A, M = build(leaves)
         Aop = herm_op(cfg["opkind"], A)
         Mop = herm_op(cfg["opkind"], M) if useM else None
+        held["A"], held["M"] = Aop, Mop
         kw = {} if cfg["method"] == "exacteig" else {"bck_options": dict(BCK[cfg["bck"]])}
         if cfg.get("degtol") and "bck_options" in kw:
             # the caller declares the spectrum non-degenerate (tolerances far below the gap of 2e-7)
@@ -526,6 +545,13 @@ def run_symeig(cfg):
     if tuple(E.shape) != bshape + (neig,) or tuple(X.shape) != bshape + (n, neig):
         return {"viol": [V("forward-shape-mismatch", {"E": list(E.shape), "X": list(X.shape)}, **at0)],
                 "obs": {"shape": list(X.shape)}, "status": "violation"}
+    if cfg.get("mut"):
+        # object history: after the forward call its owner gives the operator object OTHER tensors (a loop that
+        # re-uses one operator for the next problem); the backward pass of the first result must not see them
+        with torch.no_grad():
+            held["A"].mat = held["A"].mat.detach() * 1.7 + 0.3 * torch.eye(n, dtype=dt)
+            if held["M"] is not None:
+                held["M"].mat = held["M"].mat.detach() * 1.2 + 0.1 * torch.eye(n, dtype=dt)
     lib = losses_from_pairs(E, X, off)
     # (a contour of radius 1e-7 is too ill-conditioned a reference for the "near" spectrum: dense eigh is used)
     ref = losses_eigh(leaves) if cfg["spectrum"] == "near" else losses_contour(leaves)
